@@ -103,9 +103,9 @@ SlotStep(e, reg, calls, st, i) ==
              ok == /\ (c.sid = en.id) \/ RJ("WRONGMIN", i)
                    /\ SameParams(c.params, t.params) \/ RJ("PARAMS", i)
                    /\ PayloadOK(slot, c) \/ RJ("PAYLOAD", i)
-                   /\ (en.cmd # 0 \/ c.out = StubOut(c.sid, c.payload)) \/ RJ("ORACLE", i)
+                   /\ (en.cmd # 0 \/ c.sid # en.id \/ c.out = StubOut(c.sid, c.payload)) \/ RJ("ORACLE", i)
                    \* "minified exactly as their own minifier would": same bytes as a direct call on the same content
-                   /\ (en.cmd # 4 \/ (c.hasdirect /\ c.out = c.direct /\ c.fail = c.directfail))
+                   /\ (en.cmd # 4 \/ c.sid # en.id \/ (c.hasdirect /\ c.out = c.direct /\ c.fail = c.directfail))
                         \/ RJ("DIRECT", i)
                    /\ IF c.fail
                       THEN IF slot.kind \in DataUriKinds
